@@ -342,6 +342,36 @@ def _step_stmt(st, env):
         env[pl[0]] = v
 
 
+def body_hash(b):
+    """identity of a body's code, independent of where it stands in the file (spans left out)"""
+    import hashlib
+    h = hashlib.sha256()
+
+    def feed(d):
+        if isinstance(d, dict):
+            for k in d:
+                if k in ("sp", "_at", "inl", "exp"):
+                    continue
+                h.update(str(k).encode())
+                feed(d[k])
+        elif isinstance(d, (list, tuple)):
+            h.update(b"[")
+            for x in d:
+                feed(x)
+            h.update(b"]")
+        else:
+            h.update(repr(d).encode())
+    for d in b.locals:
+        h.update(str(d.get("ty")).encode())
+    for blk in b.blocks:
+        h.update(b"|")
+        for st in blk["stmts"]:
+            feed(st)
+        if blk["term"] is not None:
+            feed(blk["term"])
+    return h.hexdigest()[:16]
+
+
 def _tuple_elems(ty):
     """element types of a tuple type string "(A, B<C, D>, E)" (top-level commas), or None"""
     ty = ty.strip()
@@ -782,6 +812,23 @@ def inline_program(P):
         for bb, C, which in todo:
             _desugar_any_all(B, bb, C, which)
             log.append("%s: %s(closure) rewritten as the loop it abbreviates" % (fid, which))
+    # bodies whose code differs from the reviewed tree's get the same normalisation as bodies that received inlined code: an edit
+    # that routes a decision through a local (`let reason = if a { Some(..) } else { None }; match reason { .. }`) turned a
+    # dominance fact into value flow, and threading the constant jumps turns it back.  Unchanged bodies are left exactly as they are.
+    try:
+        from .spec.known_functions import BODY_HASH
+    except ImportError:
+        BODY_HASH = None
+    if BODY_HASH is not None and not os.environ.get("SA_NO_THREAD_CHANGED"):
+        for fid in list(bodies):
+            if fid in changed or "::test" in fid or fid.startswith("test"):
+                continue
+            b0 = bodies[fid]
+            if b0.kind in ("const", "static", "assoc_const") or len(b0.blocks) >= 900:
+                continue
+            if body_hash(b0) not in BODY_HASH.get(fid, ()):
+                changed[fid] = _clone_body(b0)
+                log.append("%s: differs from the reviewed tree (normalised like inlined code)" % fid)
     # restore the dominance facts that a constant-returning helper turned into value flow
     if os.environ.get("SA_THREAD_ALL"):
         for fid in list(bodies):
